@@ -11,7 +11,7 @@ UNITS = {
 }
 # reduce/scan bag harnesses: arrays up to 256 elements stay field-sensitive (range_vector's 128-byte pool must constant-fold)
 RCBMC = ['--unwind', '9', '--max-field-sensitivity-array-size', '256']
-def sched(nelem, grain, nest, nestk, cancel=(0,), nestmasks=None, drains=None, pols=(0, 1), extra=None):
+def sched(nelem, grain, nest, nestk, cancel=(0,), nestmasks=None, drains=None, pols=(0, 1), extra=None, stolen=(0, 255)):
   """task orders for the reduce/scan task-bag harnesses: see h_reduce.c"""
   leaves = -(-nelem // grain)
   out = []
@@ -19,9 +19,11 @@ def sched(nelem, grain, nest, nestk, cancel=(0,), nestmasks=None, drains=None, p
     for dr in (drains if drains is not None else range(1 << max(leaves - 1, 0))):
       for pol in (pols if nm else pols[:1]):
         for c in cancel:
-          sc = {'NELEM': nelem, 'GRAIN': grain, 'NEST': nest, 'NESTK': nestk, 'NESTMASK': nm, 'DRAIN': dr, 'NESTPOL': pol, 'CANCEL': c}
-          if extra: sc.update(extra)
-          out.append(sc)
+          for st in stolen:
+            sc = {'NELEM': nelem, 'GRAIN': grain, 'NEST': nest, 'NESTK': nestk, 'NESTMASK': nm, 'DRAIN': dr, 'NESTPOL': pol, 'CANCEL': c}
+            if st is not None: sc['STOLEN'] = st     # None: symbolic per task (only where the partitioner ignores it)
+            if extra: sc.update(extra)
+            out.append(sc)
   return out
 def split_h(n, tiers, full=False):
   sc = {'N': n}
@@ -45,13 +47,15 @@ HARNESSES = [split_h(n, ['quick', 'thorough']) for n in (1, 2, 3, 4, 5, 6, 7, 8)
        scenarios=sched(3, 1, 1, 1) + sched(3, 1, 1, 1, cancel=(1, 2, 3, 4, 5, 6), nestmasks=(0, 1, 3), drains=(0, 1)),
        desc='bag', bounds={}),
   dict(name='reduce_bag_auto', unit='red_auto', harness='h_reduce.c', cbmc=RCBMC,
-       scenarios=sched(4, 1, 1, 1, nestmasks=(0, 1, 5), drains=(0, 3), extra={'MAXCONC': 2}),
+       scenarios=sched(4, 1, 1, 1, nestmasks=(0, 1, 5), drains=(0, 3), extra={'MAXCONC': 2}) +
+                 sched(8, 1, 1, 1, nestmasks=(0, 1, 2, 3), drains=(0, 1), extra={'MAXCONC': 1}) +     # range pool + demand-driven offer_work
+                 sched(6, 1, 1, 1, nestmasks=(1, 3), drains=(0, 3), extra={'MAXCONC': 1}),
        desc='bag', bounds={}),
   dict(name='reduce_bag_static', unit='red_static', harness='h_reduce.c', cbmc=RCBMC,
        scenarios=sched(4, 1, 1, 1, nestmasks=(0, 1, 5), drains=(0, 3), extra={'MAXCONC': 2}),
        desc='bag', bounds={}),
   dict(name='reduce_bag_affinity', unit='red_affinity', harness='h_reduce.c', cbmc=RCBMC,
-       scenarios=[dict(sc, STOLEN=st) for sc in sched(4, 1, 1, 1, nestmasks=(0, 1, 5), drains=(0, 3), extra={'MAXCONC': 2}) for st in (0, 5, 15)],
+       scenarios=sched(4, 1, 1, 1, nestmasks=(0, 1, 5), drains=(0, 3), extra={'MAXCONC': 2}, stolen=(0, 5, 15)),
        desc='bag', bounds={}),
   dict(name='detreduce_bag_simple', unit='det_simple', harness='h_reduce.c', cbmc=RCBMC, defines={'DETERMINISTIC': None},
        scenarios=sched(4, 1, 1, 1, nestmasks=(0, 1, 3, 5, 10), drains=(0, 3, 5)) + sched(3, 1, 1, 1, cancel=(2, 4), nestmasks=(0, 1), drains=(0, 1)),
